@@ -243,3 +243,42 @@ Fixpoint flex_next_token (fuel : nat) (t : ftables) (acts : list (option (option
           end
       end
   end.
+
+(* ---------------------------------------------------------------------------------------------------- *)
+(* search for a distinguishing string (used by the check only when check_dfa fails; not trusted)          *)
+(* ---------------------------------------------------------------------------------------------------- *)
+Fixpoint seen_pair (m : assoc) (q : Z) (v : list regex) : bool :=
+  match m with [] => false | (k, w) :: t => ((k =? q) && vec_eqb v w) || seen_pair t q v end.
+
+(* todo entries carry the reversed string that leads to the pair *)
+Fixpoint find_cex (fuel : nat) (t : ftables) (todo : list (Z * list regex * list N)) (seen : assoc) : option (list N) :=
+  match fuel with
+  | O => None
+  | S f =>
+      match todo with
+      | [] => None
+      | (q, v, path) :: rest =>
+          if seen_pair seen q v then find_cex f t rest seen
+          else if negb (accept_ok t q v) then Some (rev path)
+          else
+            let step := fun c =>
+              match byte_class t c with
+              | None => inl (c :: path)
+              | Some k =>
+                  match next_state (chain_fuel t) t q k with
+                  | None => inl (c :: path)
+                  | Some q' =>
+                      let v' := map (deriv c) v in
+                      if forallb is_empty v' then (if q' =? ft_jam t then inr [] else inl (c :: path))
+                      else if q' =? ft_jam t then inl (c :: path)
+                      else inr [(q', v', c :: path)]
+                  end
+              end in
+            let results := map step bytes256 in
+            match find (fun r => match r with inl _ => true | inr _ => false end) results with
+            | Some (inl p) => Some (rev p)
+            | _ => find_cex f t (rest ++ flat_map (fun r => match r with inr l => l | inl _ => [] end) results)
+                            ((q, v) :: seen)
+            end
+      end
+  end.
